@@ -48,18 +48,18 @@ type group struct {
 }
 
 type drv struct {
-	r       *ev.Run
-	srv     *fixture.ChildServer
-	c       *wire.Client
-	rnd     *rand.Rand
-	crashes int
-	dd      *mimegen.Dedup
-	alsoPc  map[string]int
-	nMsg    int
-	refused map[string]int
-	perKind map[string]int64
-	perPc   map[string]int64
-	bytesRx int64
+	r         *ev.Run
+	srv       *fixture.ChildServer
+	c         *wire.Client
+	rnd       *rand.Rand
+	crashes   int
+	dd        *mimegen.Dedup
+	alsoPc    map[string]int
+	nMsg      int
+	refused   map[string]int
+	perKind   map[string]int64
+	perPc     map[string]int64
+	bytesRx   int64
 	noPartial map[string]bool
 }
 
